@@ -71,9 +71,18 @@ theorem countedProd_pos (fil : Bool) (dims : List Nat) : ∀ i, (∀ d ∈ dims,
 
 theorem u64_small (n : Nat) (h : n < two64) : u64 n = n := by unfold u64; exact Nat.mod_eq_of_lt h
 
+/-- the dimensions that count values: all of them, except the first one of a string table at index 0 -/
+def countedDims (fil : Bool) (i : Nat) (dims : List Nat) : List Nat :=
+  if i = 0 ∧ fil = true then dims.drop 1 else dims
+
+theorem prod_pos_of_all (l : List Nat) (h : ∀ x ∈ l, 1 ≤ x) : 1 ≤ l.prod := by
+  induction l with
+  | nil => simp
+  | cons a r ihr => simp only [List.prod_cons]; exact Nat.mul_pos (h a (by simp)) (ihr (fun x hx => h x (by simp [hx])))
+
 theorem sizeOk_ok (rem : Nat) (fil : Bool) (hrem : rem + 0xFFFF < two64) : ∀ (dims : List Nat) (i nB nV : Nat),
     (nB = 0 ∨ ∀ d ∈ dims, 1 ≤ d) →
-    (nV = 0 ∨ ∀ d ∈ dims, 1 ≤ d) →
+    (nV = 0 ∨ ∀ d ∈ countedDims fil i dims, 1 ≤ d) →
     nB * dims.prod ≤ rem → nV * countedProd fil i dims ≤ rem + 0xFFFF →
     sizeOk rem fil dims i nB nV = some (nV * countedProd fil i dims) := by
   intro dims
@@ -85,50 +94,48 @@ theorem sizeOk_ok (rem : Nat) (fil : Bool) (hrem : rem + 0xFFFF < two64) : ∀ (
     simp only [countedProd] at hv ⊢
     unfold sizeOk
     simp only
+    have hVt : nV = 0 ∨ ∀ x ∈ t, 1 ≤ x := by
+      cases hV with
+      | inl h => exact .inl h
+      | inr h =>
+        right; intro x hx; apply h x
+        unfold countedDims; split
+        · simpa using hx
+        · simp [hx]
     -- the byte count after this dimension
-    have hB' : (if nB ≠ 0 then u64 (nB * d) else nB) = nB * d := by
-      by_cases h0 : nB = 0
-      · simp [h0]
-      · simp only [ne_eq, h0, not_false_eq_true, if_true]
-        have hall := hB.resolve_left h0
-        have htp : 1 ≤ t.prod := by
-          have : ∀ l : List Nat, (∀ x ∈ l, 1 ≤ x) → 1 ≤ l.prod := by
-            intro l; induction l with
-            | nil => intro _; simp
-            | cons a r ihr => intro h; simp only [List.prod_cons]; exact Nat.mul_pos (h a (by simp)) (ihr (fun x hx => h x (by simp [hx])))
-          exact this t (fun x hx => hall x (by simp [hx]))
-        have : nB * d ≤ nB * (d * t.prod) := by
-          apply Nat.mul_le_mul_left; exact Nat.le_mul_of_pos_right d htp
-        apply u64_small; unfold two64 at *; omega
     have hBle : nB * d ≤ rem := by
       by_cases h0 : nB = 0
       · simp [h0]
       · have hall := hB.resolve_left h0
-        have htp : 1 ≤ t.prod := by
-          have : ∀ l : List Nat, (∀ x ∈ l, 1 ≤ x) → 1 ≤ l.prod := by
-            intro l; induction l with
-            | nil => intro _; simp
-            | cons a r ihr => intro h; simp only [List.prod_cons]; exact Nat.mul_pos (h a (by simp)) (ihr (fun x hx => h x (by simp [hx])))
-          exact this t (fun x hx => hall x (by simp [hx]))
+        have htp : 1 ≤ t.prod := prod_pos_of_all t (fun x hx => hall x (by simp [hx]))
         have : nB * d ≤ nB * (d * t.prod) := by
           apply Nat.mul_le_mul_left; exact Nat.le_mul_of_pos_right d htp
         omega
+    have hB' : (if nB ≠ 0 then u64 (nB * d) else nB) = nB * d := by
+      by_cases h0 : nB = 0
+      · simp [h0]
+      · simp only [ne_eq, h0, not_false_eq_true, if_true]
+        apply u64_small; unfold two64 at *; omega
     -- the value count after this dimension
     let c := (if i > 0 ∨ fil = false then d else 1)
     have hcdef : c = (if i > 0 ∨ fil = false then d else 1) := rfl
     rw [← hcdef] at hv ⊢
+    have hVle : nV * c ≤ rem + 0xFFFF := by
+      by_cases h0 : nV = 0
+      · simp [h0]
+      · have hall := hVt.resolve_left h0
+        have hcp := countedProd_pos fil t (i + 1) hall
+        have : nV * c ≤ nV * c * countedProd fil (i + 1) t := Nat.le_mul_of_pos_right _ hcp
+        rw [Nat.mul_assoc] at this
+        omega
     have hV' : (if nV ≠ 0 ∧ (i > 0 ∨ (!fil) = true) then u64 (nV * d) else nV) = nV * c := by
       by_cases h0 : nV = 0
       · simp [h0]
-      · have hall := hV.resolve_left h0
-        have hcp := countedProd_pos fil t (i + 1) (fun x hx => hall x (by simp [hx]))
-        by_cases hc : i > 0 ∨ fil = false
+      · by_cases hc : i > 0 ∨ fil = false
         · have hc' : i > 0 ∨ (!fil) = true := by cases hc with | inl h => exact .inl h | inr h => right; simp [h]
           simp only [ne_eq, h0, not_false_eq_true, hc', and_self, if_true]
           have hcd : c = d := by simp [hcdef, hc]
-          rw [hcd] at hv ⊢
-          have : nV * d ≤ nV * d * countedProd fil (i + 1) t := Nat.le_mul_of_pos_right _ hcp
-          rw [Nat.mul_assoc] at this
+          rw [hcd] at hVle ⊢
           apply u64_small; unfold two64 at *; omega
         · have hc' : ¬ (i > 0 ∨ (!fil) = true) := by
             intro h; apply hc; cases h with | inl h => exact .inl h | inr h => right; simpa using h
@@ -136,14 +143,6 @@ theorem sizeOk_ok (rem : Nat) (fil : Bool) (hrem : rem + 0xFFFF < two64) : ∀ (
           rw [hcd, Nat.mul_one]
           rw [if_neg]
           intro h; exact hc' h.2
-    have hVle : nV * c ≤ rem + 0xFFFF := by
-      by_cases h0 : nV = 0
-      · simp [h0]
-      · have hall := hV.resolve_left h0
-        have hcp := countedProd_pos fil t (i + 1) (fun x hx => hall x (by simp [hx]))
-        have : nV * c ≤ nV * c * countedProd fil (i + 1) t := Nat.le_mul_of_pos_right _ hcp
-        rw [Nat.mul_assoc] at this
-        omega
     rw [hB', hV']
     have hno : ¬ (nB * d > rem ∨ nV * c > rem + 0xFFFF) := by omega
     simp only [hno, if_false]
@@ -154,7 +153,10 @@ theorem sizeOk_ok (rem : Nat) (fil : Bool) (hrem : rem + 0xFFFF < two64) : ∀ (
       · right; exact fun x hx => (hB.resolve_left h0) x (by simp [hx])
     · by_cases h0 : nV = 0
       · left; simp [h0]
-      · right; exact fun x hx => (hV.resolve_left h0) x (by simp [hx])
+      · right; intro x hx
+        have : countedDims fil (i + 1) t = t := by unfold countedDims; simp
+        rw [this] at hx
+        exact (hVt.resolve_left h0) x hx
     · rw [Nat.mul_assoc]; exact hb
     · rw [Nat.mul_assoc]; exact hv
 
